@@ -72,6 +72,24 @@ func (s *c20Server) serve(ln net.Listener) {
 			w.Write([]byte(c20Content(content)))
 		}
 	})
+	// /a.yml is a remote Taskfile that itself includes the remote /inc.yml
+	mux.HandleFunc("/a.yml", func(w http.ResponseWriter, r *http.Request) {
+		s.mu.Lock()
+		mode := s.mode
+		s.reqs++
+		s.mu.Unlock()
+		switch mode {
+		case "http500":
+			http.Error(w, "boom", 500)
+		case "silent":
+			select {
+			case <-r.Context().Done():
+			case <-time.After(20 * time.Second):
+			}
+		default:
+			w.Write([]byte("version: '3'\nincludes:\n  b: http://" + s.addr + "/inc.yml\ntasks:\n  showa:\n    cmds:\n      - echo OUTER\n"))
+		}
+	})
 	s.srv = &http.Server{Handler: mux}
 	go s.srv.Serve(ln)
 }
@@ -502,6 +520,119 @@ func c20TwoURLsUnit() *Unit {
 	}}
 }
 
+// a remote Taskfile that includes another remote Taskfile: once both are downloaded and
+// approved, the inner one stays runnable from the cache under every kind of network failure,
+// including a server that answers nothing until --timeout has passed
+func c20NestedUnit() *Unit {
+	name := "nested-remote-include-server-failures"
+	return &Unit{Name: name, Weight: 3, Custom: func(u *Unit, dir string, deadline time.Time) *vlab.UnitResult {
+		res := &vlab.UnitResult{SigCounts: map[string]int{}, Extra: map[string]any{}}
+		srv := &c20Server{content: "v1", mode: "up"}
+		if err := srv.start(); err != nil {
+			res.HarnessErr = err.Error()
+			return res
+		}
+		defer srv.set("v1", "refusing")
+		n := 0
+		var samples []any
+		rootTF := "version: '3'\nincludes:\n  a: http://" + srv.addr + "/a.yml\ntasks:\n  local:\n    cmds: ['true']\n"
+		env := []string{"TASK_X_REMOTE_TASKFILES=1"}
+		for _, mode := range []string{"silent", "refusing", "http500"} {
+			for _, extra := range [][]string{nil, {"--download"}, {"--offline"}} {
+				os.RemoveAll(dir)
+				os.MkdirAll(dir, 0o755)
+				os.WriteFile(filepath.Join(dir, "Taskfile.yml"), []byte(rootTF), 0o644)
+				srv.set("v1", "up")
+				so0, se0, rc0 := RunCLI(dir, env, "", "--timeout", "5s", "--insecure", "--yes", "a:b:show")
+				n++
+				hist := []string{"run-yes a:b:show", "server-" + mode, "run --timeout 1s " + strings.Join(extra, " ")}
+				add := func(v vlab.Violation) {
+					v.Scenario = name
+					v.Input = map[string]any{"history": hist, "root_taskfile": rootTF}
+					v.Trace = hist
+					res.SigCounts[v.Sig]++
+					if res.SigCounts[v.Sig] == 1 {
+						res.Violations = append(res.Violations, v)
+					}
+				}
+				if rc0 != 0 || !strings.Contains(so0, "REMOTE-v1") {
+					add(vlab.V("C20", "approved_content_did_not_run", "nested:first_download", fmt.Sprintf("status %d stdout %q stderr %q", rc0, so0, firstN(se0, 160))))
+					continue
+				}
+				srv.set("v1", mode)
+				args := append([]string{"--timeout", "1s", "--insecure"}, extra...)
+				so, se, rc := RunCLI(dir, env, "", append(args, "a:b:show")...)
+				n++
+				if len(samples) < 3 {
+					samples = append(samples, map[string]any{"history": hist, "status": rc, "stdout": so})
+				}
+				if rc != 0 || !strings.Contains(so, "REMOTE-v1") {
+					add(vlab.V("C20", "cache_not_used", fmt.Sprintf("nested:server=%s:%s:got%d", mode, strings.Join(extra, ""), rc), fmt.Sprintf("both remote Taskfiles are cached and approved, the server is %s: status %d stdout %q stderr %q", mode, rc, so, firstN(se, 200))))
+				}
+			}
+		}
+		res.Extra["samples"] = samples
+		res.Stats = vlab.Stats{Scenario: name, Execs: n, States: n, Transitions: n, Outcomes: 2, Exhaustive: true}
+		return res
+	}}
+}
+
+// plain http is refused without --insecure however the scheme is spelled, for an include and
+// for a root Taskfile given with --taskfile: no request reaches the server, nothing runs
+func c20SchemeUnit() *Unit {
+	name := "plain-http-scheme-spellings"
+	return &Unit{Name: name, Weight: 1, Custom: func(u *Unit, dir string, deadline time.Time) *vlab.UnitResult {
+		res := &vlab.UnitResult{SigCounts: map[string]int{}, Extra: map[string]any{}}
+		srv := &c20Server{content: "v1", mode: "up"}
+		if err := srv.start(); err != nil {
+			res.HarnessErr = err.Error()
+			return res
+		}
+		defer srv.set("v1", "refusing")
+		n := 0
+		var samples []any
+		env := []string{"TASK_X_REMOTE_TASKFILES=1"}
+		for _, scheme := range []string{"http", "HTTP", "Http", "hTTp"} {
+			for _, where := range []string{"include", "root"} {
+				url := scheme + "://" + srv.addr + "/inc.yml"
+				os.RemoveAll(dir)
+				os.MkdirAll(dir, 0o755)
+				args := []string{"--timeout", "5s", "--yes"}
+				req := "rem:show"
+				if where == "include" {
+					os.WriteFile(filepath.Join(dir, "Taskfile.yml"), []byte("version: '3'\nincludes:\n  rem: "+url+"\ntasks:\n  local:\n    cmds: ['true']\n"), 0o644)
+				} else {
+					args = append(args, "--taskfile", url)
+					req = "show"
+				}
+				srv.mu.Lock()
+				r0 := srv.reqs
+				srv.mu.Unlock()
+				so, se, rc := RunCLI(dir, env, "", append(args, req)...)
+				n++
+				srv.mu.Lock()
+				nreq := srv.reqs - r0
+				srv.mu.Unlock()
+				if len(samples) < 3 {
+					samples = append(samples, map[string]any{"scheme": scheme, "where": where, "status": rc, "requests": nreq})
+				}
+				if rc == 0 || nreq != 0 || strings.Contains(so, "REMOTE-") {
+					v := vlab.V("C20", "plain_http_not_refused", fmt.Sprintf("scheme=%s:%s:got%d", scheme, where, rc), fmt.Sprintf("%s %s without --insecure: status %d, %d requests reached the server, stdout %q, stderr %q", where, url, rc, nreq, so, firstN(se, 160)))
+					v.Scenario = name
+					v.Input = map[string]any{"url": url, "args": append(args, req)}
+					res.SigCounts[v.Sig]++
+					if res.SigCounts[v.Sig] == 1 {
+						res.Violations = append(res.Violations, v)
+					}
+				}
+			}
+		}
+		res.Extra["samples"] = samples
+		res.Stats = vlab.Stats{Scenario: name, Execs: n, States: n, Transitions: n, Outcomes: 1, Exhaustive: true}
+		return res
+	}}
+}
+
 func c20Units(tier string) []*Unit {
-	return []*Unit{c20Unit(tier, false), c20Unit(tier, true), c20TwoURLsUnit()}
+	return []*Unit{c20Unit(tier, false), c20Unit(tier, true), c20TwoURLsUnit(), c20NestedUnit(), c20SchemeUnit()}
 }
